@@ -114,6 +114,9 @@ class OrdInterp(TabInterp):
             if x.variant != y.variant:
                 return "lt" if x.variant < y.variant else "gt"
             fx, fy = x.fields, y.fields
+        elif isinstance(x, Adt) and isinstance(y, Adt) and x.path == y.path == "core::cmp::Reverse":
+            o = self.struct_cmp(st, x.fields[0], y.fields[0], depth + 1)          # Reverse<T>: the order of T turned round
+            return {"lt": "gt", "gt": "lt", "eq": "eq"}[o]
         elif isinstance(x, Tup) and isinstance(y, Tup) and len(x.fields) == len(y.fields):
             fx, fy = x.fields, y.fields
         elif isinstance(x, (Adt, Tup)) or isinstance(y, (Adt, Tup)):
@@ -161,6 +164,12 @@ class OrdInterp(TabInterp):
             v = self._deref(st, self.operand(st, t["args"][0]))
             if isinstance(v, Adt) and v.vname in ("Ok", "Err", "Some", "None"):
                 return 1 if {"is_ok": v.vname == "Ok", "is_err": v.vname == "Err", "is_some": v.vname == "Some", "is_none": v.vname == "None"}[c.rsplit("::", 1)[1]] else 0
+        if c == "core::cmp::Reverse" and len(t["args"]) == 1:
+            return Adt("core::cmp::Reverse", 0, "Reverse", [self.operand(st, t["args"][0])])
+        if c == "<core::cmp::Reverse<T> as core::cmp::Ord>::cmp":
+            x = self._deref(st, self.operand(st, t["args"][0]))
+            y = self._deref(st, self.operand(st, t["args"][1]))
+            return ordering({"lt": "Less", "eq": "Equal", "gt": "Greater"}[self.struct_cmp(st, x, y, 0)])
         if c == "core::option::Option::<T>::zip":
             a0 = self._deref(st, self.operand(st, t["args"][0]))
             a1 = self._deref(st, self.operand(st, t["args"][1]))
